@@ -866,8 +866,9 @@ class Fxp():
         if original_vdtype != complex and not np.issubdtype(original_vdtype, np.complexfloating):
             # val_dtype determination
             _n_word_max_ = min(_n_word_max, 64)
-            if val.dtype.kind in 'iO':
+            if val.dtype.kind in 'iO' or (val.dtype.kind == 'u' and not raw):
                 # integer input: the scaled value has to fit in a signed 64 bits integer
+                # (unsigned raw values are left alone: a wrapped unsigned difference is re-interpreted below)
                 _int_overflow = max(abs(int(np.max(val))), abs(int(np.min(val)))) * max(conv_factor, 1) >= 2**(_n_word_max_ - 1)
             else:
                 _int_overflow = False
